@@ -8,6 +8,7 @@ import LekkerVerif.Model.DriverNames
 import LekkerVerif.Core.Monitor
 import LekkerVerif.Core.HierSolve
 import LekkerVerif.Model.HierParams
+import LekkerVerif.Core.HierFlatten
 /-! Driver ops.  Each op runs executable definitions of the model on the decoded request. -/
 open Lean
 
@@ -262,6 +263,24 @@ def opPHSweep (j : Json) : Json :=
             ("T", Json.arr (c.pins.map fun x => Json.arr (c.pins.map fun y => gratToJson (c.sem x y)).toArray).toArray)]).toArray)]
   | _, _ => errJson "parse"
 
+/-- op `hflatten`: `Solver.flatten()` on the description (`HNet.flatten`): leaf paths in the order of the flattened level, links and
+exposures re-addressed by leaf position; with `"solve": true` also the solve of the flattened circuit -/
+def opHFlatten (j : Json) : Json :=
+  match (j.getObjVal? "tree").toOption >>= parseTree with
+  | none => errJson "parse"
+  | some t =>
+    let paths := (HNet.leaves t).map (·.1)
+    match t.flatten with
+    | .leaf _ => Json.mkObj [("leaf", true), ("paths", toJson paths)]
+    | .node cs links exposed =>
+      let base := [("paths", toJson paths), ("n", toJson cs.length),
+        ("links", Json.arr (links.map fun l => Json.arr #[toJson l.1.1, Json.str l.1.2, toJson l.2.1, Json.str l.2.2]).toArray),
+        ("exposed", Json.arr (exposed.map fun e => Json.arr #[Json.str e.1, toJson e.2.1, Json.str e.2.2]).toArray)]
+      match HNet.solveH Solve.pySched (.node cs links exposed) with
+      | .error e => Json.mkObj (base ++ [("err", Json.str (errName e))])
+      | .ok c => Json.mkObj (base ++ [("pins", toJson c.pins),
+          ("T", Json.arr (c.pins.map fun x => Json.arr (c.pins.map fun y => gratToJson (c.sem x y)).toArray).toArray)])
+
 /-- op `monsolve`: the monitor path of `Solver.solve` (`Monitor.solveMonitored` with the pin-count heuristic) -/
 def opMonSolve (j : Json) : Json :=
   match fromJson? (α := CaseJ) j with
@@ -299,6 +318,7 @@ def dispatch (j : Json) : Json :=
   | some "solve" => opSolve j
   | some "monsolve" => opMonSolve j
   | some "hsolve" => opHSolve j
+  | some "hflatten" => opHFlatten j
   | some "phsolve" => opPHSolve j
   | some "phsweep" => opPHSweep j
   | some "stack" => opStack j
